@@ -657,11 +657,15 @@ def fam_K(tier):
         ("ctor-int-from-float-lit", "int2", "int2(1.0, 2)"), ("index-float-lit", "int", "arr[1.0]"), ("index-int-lit", "int", "arr[1]"),
         ("same-value-both-types", "float", "x * 1 + 1.0"), ("same-value-both-types-2", "float", "(a + 1) * 1.0"), ("init-float-with-int", "float", "fi"),
         ("vec-scalar-int-lit", "float4", "w4 * 2"), ("vec-div-int-lit", "float4", "w4 / 2"), ("mat-scalar-int-lit", "float3x3", "m3 * 2"),
+        ("folded-cast-indexes-in-callee", "int", "gidx(1.0)"), ("int-ctor-of-float-literal-as-index", "int", "arr[int(2.0)]"),
+        ("int-ctor-local-as-index", "int", "arr[ik]"), ("float-ctor-of-int-literal", "float", "float(3) / 2"), ("folded-cast-in-vector-index", "float", "w4[gone(1.0)]"),
+        ("folded-cast-in-int-division", "int", "7 / gone(2.0)"), ("call-result-as-index", "int", "arr[gone(1.0)]"), ("binary-index-mixed", "int", "arr[a - 1]"),
         ("large-int-lit", "float", "x + 16777217"), ("hex-lit", "float", "x + 0x10"), ("oct-lit", "float", "x + 010"),
     ]
     for name, rt, expr in sites:
         src = (f"function gf(float p) -> float {{ return p * 2.0; }}\nfunction gi(int p) -> int {{ return p * 2; }}\n"
-               f"export function f(int a, float x, float4 w4, float3x3 m3, int[3] arr) -> {rt}\n{{\n    float fi = 3;\n    return {expr};\n}}\n")
+               f"function gone(int p) -> int {{ return p; }}\nfunction gidx(int p) -> int {{ int[3] t; t[0] = 5; t[1] = 6; t[2] = 7; return t[p]; }}\n"
+               f"export function f(int a, float x, float4 w4, float3x3 m3, int[3] arr) -> {rt}\n{{\n    float fi = 3;\n    int ik = int(2.0);\n    return {expr};\n}}\n")
         args = {"a": 2, "x": 1.5, "w4": [1.0, 2.0, 3.0, 4.0], "m3": [[1.0, 2.0, 3.0], [4.0, 5.0, 6.0], [7.0, 8.0, 9.5]], "arr": [5, 6, 7]}
         yield {"fam": "K", "desc": f"site={name}", "src": src, "units": [{"funcs": [], "entry": "f", "inputs": [(args, {})]}]}
 
@@ -1238,6 +1242,26 @@ def c_case(tn, shape, aname, action):
                     ("ret", B("+", V("p"), V("q")))], export=False)
         helpers = [rec]
         stm = [ASG(V("r"), ("call", "g", [V("l1"), lit(2)]))]
+    elif shape in ("recursion-local-kept", "recursion-temp-kept", "mutual-recursion-local-kept"):
+        # the caller's own local (declared and set BEFORE the recursive call) and an expression temporary are read AFTER it
+        keep = [("decl", T, "keep", B("+", V("p"), V("p"))), ("decl", "int", "kk", B("*", V("k"), lit(10)))]
+        other = "h" if shape.startswith("mutual") else "g"
+        if shape == "recursion-temp-kept":
+            rec_body = keep + [("if", B(">", V("k"), lit(0)), ("block", list(action) + [("ret", B("+", V("keep"), ("call", other, [V("p"), B("-", V("k"), lit(1))])))]), None),
+                               ("ret", V("keep"))]
+        else:
+            rec_body = keep + [("decl", T, "q", V("p")),
+                               ("if", B(">", V("k"), lit(0)), ("block", list(action) + [ASG(V("q"), ("call", other, [V("p"), B("-", V("k"), lit(1))]))]), None),
+                               ("if", B("==", V("kk"), B("*", V("k"), lit(10))), ("block", [("ret", B("+", V("keep"), V("q")))]), None),
+                               ("ret", V("q"))]
+        helpers = [func("g", [(T, "p"), ("int", "k")], T, rec_body, export=False)]
+        if shape.startswith("mutual"):
+            hb = func("h", [(T, "p"), ("int", "k")], T,
+                      [("decl", T, "keep", B("-", V("p"), V("p"))), ("decl", T, "q", V("p")),
+                       ("if", B(">", V("k"), lit(0)), ("block", [ASG(V("q"), ("call", "g", [V("p"), B("-", V("k"), lit(1))]))]), None),
+                       ("ret", B("+", V("keep"), V("q")))], export=False)
+            helpers.append(hb)
+        stm = [ASG(V("r"), ("call", "g", [V("l1"), lit(3 if shape.startswith("mutual") else 2)]))]
     elif shape == "mutual-recursion":
         ga = func("g", [(T, "p"), ("int", "k")], T,
                   [("decl", T, "q", V("p")), ("if", B(">", V("k"), lit(0)), ("block", list(action) + [ASG(V("q"), ("call", "h", [V("p"), B("-", V("k"), lit(1))]))]), None),
@@ -1308,7 +1332,8 @@ def c_convert_case(kind):
 
 @family("C")
 def fam_C(tier):
-    shapes = ["single", "two-in-expression", "nested", "operand-after-call", "operand-before-call", "in-loop", "exported-callee", "recursion", "mutual-recursion"]
+    shapes = ["single", "two-in-expression", "nested", "operand-after-call", "operand-before-call", "in-loop", "exported-callee", "recursion", "mutual-recursion",
+              "recursion-local-kept", "recursion-temp-kept", "mutual-recursion-local-kept"]
     for tn in C_TYPES:
         for shape in shapes:
             for aname, action in c_actions(tn):
@@ -1736,6 +1761,11 @@ def fam_T(tier):
         yield (t_case, f"decl-global-read;{shape_of(T)}", [], f"{T} v = g;", [(T, "g")])
         yield (t_case, f"decl-param-return;{shape_of(T)}", [(T, "a")], "return a;", (), T)
         yield (t_case, f"index-with;{shape_of(T)}", [(T, "a"), ("int[2]", "arr")], "arr[a];")
+        # index expressions of every expression kind whose operand needs an implicit conversion to the type T
+        yield (t_case, f"index-ctor-of;{shape_of(T)}", [(T, "a"), ("int[3]", "arr")], "arr[int(a)];")
+        yield (t_case, f"index-call-with;{shape_of(T)}", [(T, "a"), ("int[3]", "arr")], "arr[gi1(a)];", (), "void", "function gi1(int p) -> int { return 1; }\n")
+        yield (t_case, f"index-call-literal;{shape_of(T)}", [(T, "a"), ("int[2][2]", "arr")], "arr[gi1(1.0)][gi1(0.0)] = 1;", (), "void", "function gi1(int p) -> int { return p; }\n")
+        yield (t_case, f"index-binary-with;{shape_of(T)}", [(T, "a"), ("int[2]", "arr"), ("uint", "u")], "arr[u - u];")
     # assignment used as a value, chained forms
     for T in ("int", "float", "float4"):
         yield (t_case, f"assign-as-value;{shape_of(T)}", [(T, "a"), (T, "b")], "a = b = a;")
@@ -1977,3 +2007,123 @@ def fam_WS(tier):
                 vals = {"int": 3, "float": 1.5}
                 yield {"fam": "WS", "desc": f"shape;params={len(sig)};values={len(pat)};ret={ret};functions={nfun}", "src": src, "sig": list(sig), "ret": ret,
                        "units": [{"funcs": [], "entry": "f0", "inputs": [({f"p{i}": vals[t] for i, t in enumerate(sig)}, {})]}]}
+
+
+# WM: modules whose functions have DIFFERENT signatures - every ordered pair of the 45 signatures
+#     (0-3 int/float parameters x int/float/void result); shared type-section entries, index maps and
+#     local numbering are per-module state that a single-signature module cannot expose
+def wm_signatures():
+    for sig in w_signatures(3):
+        for ret in ("int", "float", "void"):
+            yield sig, ret
+
+
+def _wm_func(name, sig, ret, k, export):
+    params = ", ".join(f"{t} p{i}" for i, t in enumerate(sig))
+    same = [f"p{i}" for i, t in enumerate(sig) if t == ret]
+    if ret == "void":
+        body = " ".join(f"p{i} = p{i} + {k + 1}{'.5' if t == 'float' else ''};" for i, t in enumerate(sig))
+    else:
+        c = f"{k + 3}" if ret == "int" else f"{k}.25"
+        terms = same + [c]
+        body = "return " + " + ".join(terms) + ";"
+    return f"{'export ' if export else ''}function {name}({params}) -> {ret} {{ {body} }}"
+
+
+def wm_case(s1, s2, third=None):
+    sigs = [s1, s2] + ([third] if third else [])
+    funcs = [_wm_func(f"f{k}", sig, ret, k, True) for k, (sig, ret) in enumerate(sigs)]
+    src = "\n".join(funcs) + "\n"
+    vals = {"int": 5, "float": 1.5}
+    units = []
+    for k, (sig, ret) in enumerate(sigs):
+        units.append({"funcs": [], "entry": f"f{k}", "inputs": [({f"p{i}": vals[t] for i, t in enumerate(sig)}, {})], "sig": list(sig)})
+    d = lambda s: "".join(t[0] for t in s[0]) + ">" + s[1][0]
+    return {"fam": "WM", "desc": f"two-signatures;arity={len(s1[0])},{len(s2[0])};results={s1[1]},{s2[1]}", "src": src, "units": units}
+
+
+@family("WM")
+def fam_WM(tier):
+    sigs = list(wm_signatures())
+    for a in sigs:
+        for b in sigs:
+            if a != b:
+                yield (wm_case, a, b)
+    if tier == "thorough":
+        small = [s for s in sigs if len(s[0]) <= 2]
+        for a in small:
+            for b in small:
+                for c in small:
+                    if len({a, b, c}) == 3:
+                        yield (wm_case, a, b, c)
+
+
+# =============================================================================================
+# M: float-typed storage holding integer values (no conversion is inserted at assignment /
+#    initialisation / return / host calls) x consumers where int vs float matters (C01, C02, C05)
+# =============================================================================================
+def m_sources():
+    """(name, extra params, setup statements, expression naming a float-typed location, python inputs)"""
+    return [
+        ("param-int-from-host", [("float", "s")], [], V("s")),
+        ("local-init-int-var", [], [("decl", "float", "s", V("a"))], V("s")),
+        ("local-init-int-literal", [], [("decl", "float", "s", lit(7))], V("s")),
+        ("local-assigned-int-expr", [], [("decl", "float", "s", None), ASG(V("s"), B("+", V("a"), V("b")))], V("s")),
+        ("global-int-from-host", [], [], V("gf")),
+        ("array-element", [], [("decl", ("arr", "float", (2,)), "fa", None), ASG(IDX(V("fa"), 1), V("a"))], IDX(V("fa"), 1)),
+        ("struct-field", [], [("decl", ("struct", "MS"), "ms", None), ASG(FLD(V("ms"), "ff"), V("a"))], FLD(V("ms"), "ff")),
+        ("function-result", [], [("decl", "float", "s", ("call", "asfloat", [V("a")]))], V("s")),
+        ("compound-assigned", [], [("decl", "float", "s", lit(1)), ASG(V("s"), V("a"), "*=")], V("s")),
+        ("real-float", [], [("decl", "float", "s", lit(7.0))], V("s")),
+    ]
+
+
+def m_case(s1, s2, cname):
+    n1, p1, setup1, e1 = s1
+    n2, p2, setup2, e2 = s2
+    # rename the second source's names so both can coexist
+    def ren(x):
+        if isinstance(x, tuple):
+            return tuple(ren(y) for y in x)
+        if isinstance(x, list):
+            return [ren(y) for y in x]
+        if isinstance(x, str) and x in ("s", "fa", "ms", "gf"):
+            return x + "2"
+        return x
+    p2, setup2, e2 = ren(p2), ren(setup2), ren(e2)
+    cons = {
+        "div": B("/", e1, e2), "div-literal-left": B("/", lit(7), e2), "div-literal-right": B("/", e1, lit(2)),
+        "mul-div": B("/", B("*", e1, lit(3)), e2), "div-then-compare": B("<", B("/", e1, e2), lit(3.25)),
+        "div-in-sum": B("+", B("/", e1, e2), lit(0.25)), "div-compound": None,
+    }[cname]
+    body = list(setup1) + list(setup2)
+    if cname == "div-compound":
+        body += [("decl", "float", "r", e1), ASG(V("r"), e2, "/="), ("ret", V("r"))]
+        rt = "float"
+    else:
+        rt = "int" if cname == "div-then-compare" else "float"
+        body.append(("ret", cons))
+    helper = func("asfloat", [("int", "p")], "float", [("ret", V("p"))], export=False)
+    params = [("int", "a"), ("int", "b")] + list(p1) + list(p2)
+    f = func("f", params, rt, body)
+    inputs = []
+    for a, b in ((7, 2), (9, 4), (-7, 2)):
+        args = {"a": a, "b": b}
+        for t, n in list(p1) + list(p2):
+            args[n] = 7 if n == "s" else 2      # Python ints for float parameters (the suite itself does that)
+        inputs.append((args, {"gf": 7, "gf2": 2}))
+    return {"fam": "M", "desc": f"float-holding-int;{n1}/{n2};{cname}", "prog": {"funcs": [helper], "globals": [("float", "gf"), ("float", "gf2")], "structs": [("MS", [("float", "ff")])]},
+            "units": [{"funcs": [f], "entry": "f", "inputs": inputs}]}
+
+
+@family("M")
+def fam_M(tier):
+    srcs = m_sources()
+    for s1 in srcs:
+        for s2 in srcs:
+            for cname in ("div", "div-literal-left", "div-literal-right", "mul-div", "div-then-compare", "div-in-sum", "div-compound"):
+                if cname in ("div-literal-left",) and s1 is not srcs[0]:
+                    continue
+                if cname in ("div-literal-right",) and s2 is not srcs[0]:
+                    continue
+                yield (m_case, s1, s2, cname)
